@@ -528,7 +528,13 @@ func (b *Builder) compressData(data []byte) ([]byte, error) {
 }
 
 func (b *Builder) buildIndex(bloom []byte) ([]byte, uint32) {
-	builder := fbs.NewBuilder(3 << 20)
+	initSz := 3 << 20
+	if vhook.On {
+		// Simulated tables are a few KiB: start small (the builder grows on demand),
+		// zeroing 3 MiB per table dominated the simulation's run time.
+		initSz = 4 << 10
+	}
+	builder := fbs.NewBuilder(initSz)
 
 	boList, dataSize := b.writeBlockOffsets(builder)
 	// Write block offset vector the the idxBuilder.
